@@ -4,6 +4,7 @@ package main
 // Upgrade and replayer code. Case formats are documented in lean/Driver/MessageD.lean.
 
 import (
+	"io"
 	"bytes"
 	"encoding/json"
 	"errors"
@@ -148,6 +149,13 @@ func (w *faultWriter) Write(p []byte) (int, error) {
 	return len(p), nil
 }
 
+type faultByteWriter struct{ *faultWriter }
+
+func (w faultByteWriter) WriteByte(c byte) error {
+	_, err := w.Write([]byte{c})
+	return err
+}
+
 // WT <msg> <k|-> <j> <e>
 func runWT(args []string) string {
 	if len(args) != 4 {
@@ -164,7 +172,13 @@ func runWT(args []string) string {
 		w.nested.AppendData(strings.Repeat("other message\n", 1+len(args[0])%5))
 		w.nested.AppendComment("other")
 	}
-	n, err := m.WriteTo(w)
+	// every other writer is also an io.ByteWriter (as a bufio.Writer is): a byte handed over that way is one more Write
+	// of one byte — accepted or not as any other
+	var dst io.Writer = w
+	if (len(args[0])+len(args[1]))%2 == 0 {
+		dst = faultByteWriter{w}
+	}
+	n, err := m.WriteTo(dst)
 	e := "nil"
 	if err != nil {
 		if errors.Is(err, errFault) {
